@@ -89,7 +89,7 @@ PROPERTIES = {
     },
     "C07": {
         "harness_modules": ["contracts.assume", "contracts.shapes"],
-        "harness_filter": only("AtLeast.assume", "variable.assume", "lemma.ival_wf", "lemma.refine", "shape.assume"),
+        "harness_filter": only("AtLeast.assume", "variable.assume", "lemma.ival_wf", "lemma.refine", "shape.assume", "shape.own-range"),
         "rt": ["rt.logic:c07_assume_compose", "rt.logic:history_sequences"],
         "level": "proof",
         "assumptions": S_ALL,
